@@ -10,6 +10,10 @@
 (*           into the process-global in-memory DuckDB under the table's    *)
 (*           name the first time ANY lazy feed read it (PARTITIONS is      *)
 (*           keyed by the origin, which compares by its source only)       *)
+(* A read that has to go to an unavailable storage raises and leaves all   *)
+(* of this untouched (nothing is cached, the origin is not recorded as     *)
+(* registered); a read answered from a cache or from the registered        *)
+(* content does not notice that the storage is gone.                       *)
 (* The key is the SQL text alone: it names the tables, not the feed nor    *)
 (* the storage, so with equally named tables it is the statement number.   *)
 (* Results is one class attribute shared by alchemy and lazy readers.      *)
@@ -21,8 +25,8 @@
 EXTENDS Reads, Json, TLCExt
 
 CONSTANT Lazy         \* the feeds that are lazy (monolite) feeds; the others are alchemy feeds
-VARIABLES frames, disk, reg, impl     \* impl: per Read action the rows the as-is model returns
-ivars == <<storage, hist, outs, frames, disk, reg, impl>>
+VARIABLES frames, disk, reg, impl     \* impl: per Read action what the as-is model returns: [err, rows]
+ivars == <<storage, avail, hist, outs, frames, disk, reg, impl>>
 
 Key(s) == s
 IInit == Init /\ frames = <<>> /\ disk = <<>> /\ reg = 0 /\ impl = <<>>
@@ -33,30 +37,37 @@ Put(m, k, rows) == IF Has(m, k) THEN m ELSE Append(m, [key |-> k, rows |-> rows]
 IRead(f, s) ==
     LET k == Key(s)
         cached == Has(frames, k) \/ Has(disk, k)
-        \* a lazy reader registers its origin unless the result is already known; once per process
-        reg2 == IF f \in Lazy /\ ~cached /\ reg = 0 THEN storage[f] ELSE reg
+        \* a lazy reader registers (loads) its origin unless the result is already known; once per process
+        loads == f \in Lazy /\ ~cached /\ reg = 0
+        \* the storage itself is needed by a load and by an alchemy reader executing the statement
+        fails == ~cached /\ ~avail[f] /\ (f \notin Lazy \/ loads)
+        reg2 == IF loads /\ avail[f] THEN storage[f] ELSE reg
         content == IF f \in Lazy THEN reg2 ELSE storage[f]
         rows == IF Has(frames, k) THEN Get(frames, k)
                 ELSE IF Has(disk, k) THEN Get(disk, k)
+                ELSE IF fails THEN <<>>
                 ELSE Eval(Stmts[s], Contents[content])
     IN /\ Read(f, s)
-       /\ impl' = Append(impl, rows)
-       /\ frames' = Put(frames, k, rows)
-       /\ disk' = Put(disk, k, rows)
+       /\ impl' = Append(impl, [err |-> fails, rows |-> rows])
+       /\ frames' = IF fails THEN frames ELSE Put(frames, k, rows)
+       /\ disk' = IF fails THEN disk ELSE Put(disk, k, rows)
        /\ reg' = reg2
 IMutate(f) == Mutate(f) /\ UNCHANGED <<frames, disk, reg, impl>>
+IBreak(f) == Break(f) /\ UNCHANGED <<frames, disk, reg, impl>>
 IRestart == Restart /\ frames' = <<>> /\ reg' = 0 /\ UNCHANGED <<disk, impl>>
 INext == /\ Len(hist) < Depth
-         /\ \/ \E f \in FeedSet, s \in DOMAIN Stmts : IRead(f, s)
+         /\ \/ \E f \in FeedSet, s \in ReadStmts : IRead(f, s)
             \/ \E f \in FeedSet : IMutate(f)
+            \/ \E f \in Faulty : IBreak(f)
             \/ IRestart
 ISpec == IInit /\ [][INext]_ivars
 
 \* FeedCacheImpl => Reads would need this invariant; it does not hold (stale / foreign rows)
-Fresh == \A k \in DOMAIN impl : impl[k] = outs[k].rows
+Fresh == \A k \in DOMAIN impl : outs[k].avail => ~impl[k].err /\ impl[k].rows = outs[k].rows
 \* export of every complete history: the actions, what each read must return, what the as-is model returns
 Export == Len(hist) = Depth =>
             PrintT(ToJson([hist |-> hist,
                            reads |-> [k \in DOMAIN outs |-> [at |-> outs[k].at, f |-> outs[k].f, s |-> outs[k].s,
-                                                             rows |-> outs[k].rows, impl |-> impl[k]]]]))
+                                                             avail |-> outs[k].avail, rows |-> outs[k].rows,
+                                                             impl |-> impl[k].rows, implerr |-> impl[k].err]]]))
 =============================================================================
